@@ -77,7 +77,7 @@ def gen_cases(tier, seed):
     blocks = ["4096", "64KB", "1MB", "16MB", "np"]
     for i in range(n):
         driver = ["parblock", "parfile"][i % 2]
-        nseg = r.choice([0, 1, 2, 3, 5, 8, 20, 33, 40, 70, 100] if tier == "thorough" else [0, 1, 2, 3, 5, 8, 33, 40, 70])
+        nseg = r.choice([0, 1, 2, 3, 5, 8, 20, 33, 40, 70, 100, 129, 200, 300] if tier == "thorough" else [0, 1, 2, 3, 5, 8, 33, 40, 70, 140])
         lead, lens = layout(r, nseg)
         if i % 37 == 5:
             lens, nseg = ["huge"], 3
